@@ -67,6 +67,19 @@ func cmdSSA(args []string) {
 		os.Exit(2)
 	}
 	cx := loadAll(*repo, []string{rest[0]}, nil)
+	if rest[1] == "-list" {
+		var ks []string
+		for k := range cx.fnByKey {
+			if strings.Contains(k, strings.TrimPrefix(rest[0], ".")) {
+				ks = append(ks, k)
+			}
+		}
+		sort.Strings(ks)
+		for _, k := range ks {
+			fmt.Println(k)
+		}
+		return
+	}
 	for k, f := range cx.fnByKey {
 		if strings.HasSuffix(k, "::"+rest[1]) {
 			f.WriteTo(os.Stdout)
